@@ -132,6 +132,15 @@ def lookupLast {α : Type} (k : String) : List (String × α) → Option α
     | some r => some r
     | none => if k' == k then some v else none
 
+/-- Python `d[k] = v`: an existing key keeps its position and gets the new value, a new key is appended -/
+def dictSet (d : List (String × PV)) (k : String) (v : PV) : List (String × PV) :=
+  if d.any (fun p => p.1 == k) then d.map (fun p => if p.1 == k then (k, v) else p) else d ++ [(k, v)]
+
+/-- the dict that results from a sequence of assignments `coerced[python_name] = value` (two fields / arguments that
+    share a python name collide: the later value wins, at the earlier position) -/
+def dictOfAssignments (kvs : List (String × PV)) : List (String × PV) :=
+  kvs.foldl (fun d p => dictSet d p.1 p.2) []
+
 def mapE {α β : Type} (f : α → Except Err β) : List α → Except Err (List β)
   | [] => .ok []
   | x :: xs =>
@@ -390,7 +399,7 @@ def coerceInputObject (rec : Ty → JV → R) (fields : List InField) (v : JV) :
   | .obj kvs =>
     match fieldLoopC (fun k => lookupLast k kvs) rec fields with
     | .error e => .error e
-    | .ok r => if allKnown fields kvs then .ok (.dict r) else .error .coercion
+    | .ok r => if allKnown fields kvs then .ok (.dict (dictOfAssignments r)) else .error .coercion
   | _ => .error .coercion
 
 /-- body of `coerce_value` after the non-null test, on the stripped type -/
@@ -436,7 +445,7 @@ def extractVariable (vars : Option (List (String × PV))) (ty : Ty) (x : String)
 def extractInputObject (rec : Ty → Lit → R) (fields : List InField) (lkvs : List (String × Lit)) : R :=
   match fieldLoop (fun k => lookupLast k lkvs) rec fields with
   | .error e => .error e
-  | .ok r => if allKnown fields lkvs then .ok (.dict r) else .error .coercion
+  | .ok r => if allKnown fields lkvs then .ok (.dict (dictOfAssignments r)) else .error .coercion
 
 /-- body of `value_from_ast` after the variable and non-null tests, on the stripped type -/
 def vfaCore (reg : Reg) (rec : Ty → Lit → R) (t : Ty) (l : Lit) : R :=
